@@ -31,7 +31,7 @@ import OSq.Model.Text
   * `exportV1Stmt_gate_form`, `exportV1Stmt_measure_form`, `exportV1Stmt_reset_form`,
     `exportV1Stmt_comment_form`, `exportV1Stmt_error_iff`   per-statement form and the exact error cases.
   * `exportV1_error_iff`      `exportV1` fails with `e` iff the first failing statement fails with `e`.
-  * `exportV1_anon_refused`   first failing statement anonymous gate ⇒ `.error .unsupported` (no partial output).
+  * `exportV1_anon_refused`   first failing statement anonymous gate ⇒ `.error .unsupported` (nothing is output).
   * `exportV1_ok_form`        on success: header ++ join of the per-statement lines, right-stripped, plus `"\n"`.
   * `exportV1_ok_iff_all_ok`  success iff every statement exports.
 -/
@@ -532,7 +532,7 @@ theorem exportV1_eq (fmt : α → String) (c : Circuit α) :
   cases c.stmts.mapM (exportV1Stmt fmt) <;> rfl
 
 /-- C12: `exportV1` fails with `e` iff some statement fails with `e` and all earlier ones export
-    (first error wins).  As the result is an `Except`, a failure carries no partial output. -/
+    (first error wins).  As the result is an `Except`, a failure carries no output at all. -/
 theorem exportV1_error_iff (fmt : α → String) (c : Circuit α) (e : Err) :
     exportV1 fmt c = .error e ↔
       ∃ pre s post, c.stmts = pre ++ s :: post ∧ (∀ t ∈ pre, ∃ l, exportV1Stmt fmt t = .ok l) ∧
